@@ -208,6 +208,60 @@ func TestC07(t *testing.T) {
 				f.ResetVars()
 			}
 		}
+		// histories on one variable: re-apply a method with another closure of the same literal; work through a
+		// CachedInterfaceMocker the user kept across Reset; every step checked
+		if fi%nshards == shard {
+			f.ResetVars()
+			for v := 0; v < 2; v++ {
+				saved := words(f.Vars[v])
+				b := mocker.Create()
+				c := map[string]interface{}{"iface": f.Name, "variable": v, "scenario": "re-apply / kept handle across Reset"}
+				m0 := len(f.Methods) - 1
+				type mk = struct {
+					mode string
+					tag  int
+				}
+				step := func(name string, fn func()) bool {
+					var perr interface{}
+					func() {
+						defer func() { perr = recover() }()
+						fn()
+					}()
+					rep.Eval(1)
+					if perr != nil {
+						rep.Violate("C07/history-step-panicked", fmt.Sprintf("%s: %s panicked: %v", f.Name, name, perr), c)
+						return false
+					}
+					return true
+				}
+				h := f.Handle(b, v)
+				ok := step("Apply(tag 5)", func() { f.InstallOn(h, m0, "Apply", 5) }) &&
+					w.checkCalls(f, v, map[int]mk{m0: {"Apply", 5}}, "first apply", c) &&
+					step("Apply(tag 6) again, closure of the same literal", func() { f.InstallOn(h, m0, "Apply", 6) }) &&
+					w.checkCalls(f, v, map[int]mk{m0: {"Apply", 6}}, "re-apply with another closure of the same literal", c) &&
+					step("Return(tag 7) after Apply", func() { f.InstallOn(h, m0, "Return", 7) }) &&
+					w.checkCalls(f, v, map[int]mk{m0: {"Return", 7}}, "Return after Apply", c) &&
+					step("Reset", func() { b.Reset() })
+				if ok {
+					if got := words(f.Vars[v]); got != saved {
+						ok = false
+						rep.Violate("C07/reset-did-not-restore", fmt.Sprintf("%s variable %d: words %#x after Reset, %#x before the mock", f.Name, v, got, saved), c)
+					}
+				}
+				// second life through the SAME handle object
+				ok = ok && step("Apply(tag 8) through the handle kept from before the Reset", func() { f.InstallOn(h, m0, "Apply", 8) }) &&
+					w.checkCalls(f, v, map[int]mk{m0: {"Apply", 8}}, "apply through a kept handle after Reset", c) &&
+					step("second Reset", func() { b.Reset() })
+				if ok {
+					if got := words(f.Vars[v]); got != saved {
+						rep.Violate("C07/reset-did-not-restore", fmt.Sprintf("%s variable %d: after apply through a kept handle and a second Reset the words are %#x, before the first mock %#x", f.Name, v, got, saved), c)
+					}
+				}
+				rep.Class(fmt.Sprintf("history/re-apply+kept-handle/var%d", v))
+				func() { defer func() { recover() }(); b.Reset() }()
+				f.ResetVars()
+			}
+		}
 		// two variables of the same type in one builder
 		if fi%nshards == shard {
 			f.ResetVars()
